@@ -109,6 +109,7 @@ FrameCells == /\ IsEvent("framecells")
                  IN Judge(ok) /\ st' = [st EXCEPT !.mesh = r[2]]
 FrameEnd   == IsEvent("frameend") /\ Judge(FrameEndOK(E, st.mesh)) /\ st' = StInit
 Reflected  == Stateless("reflected", ReflectedOK(E))
+Sector     == Stateless("sector", SectorOK(E))
 GoldenGeom == Stateless("goldengeom", GoldenGeomOK(E))
 GoldenLookup == Stateless("goldenlookup", GoldenLookupOK(E))
 
@@ -120,7 +121,7 @@ TraceNext ==
   \/ Anchors \/ AnchorsPin \/ AnchorsEnd \/ RelConfig \/ RelFact \/ CoverFact \/ RelEnd \/ ChildGeom
   \/ QuintMap \/ QuintMapPin \/ Call
   \/ ProjStep \/ Pair \/ Purity \/ Instances
-  \/ FaceCentre \/ FaceAngle \/ Nearest \/ FrameCells \/ FrameEnd \/ Reflected \/ GoldenGeom \/ GoldenLookup
+  \/ FaceCentre \/ FaceAngle \/ Nearest \/ FrameCells \/ FrameEnd \/ Reflected \/ Sector \/ GoldenGeom \/ GoldenLookup
   \/ Lookup \/ Interior1 \/ Interior2 \/ Centre \/ Owners \/ MeshCells \/ MeshEnd \/ Area \/ AreaMeta \/ Boundary
 
 TraceSpec == TraceInit /\ [][TraceNext]_vars
